@@ -15,6 +15,12 @@ Theorem C06_budget : forall rmse V C, (0 < rmse)%R -> length V = length C ->
   in_range rmse (S_of V C) V C ->       (* every optimum below 2^63; otherwise the repaired code raises ValueError *)
   (est_var V (giles_alloc rmse V C) <= (1 - 1 / 4) * rmse ^ 2)%R.
 Proof. exact budget. Qed.
+(* the quotients V_l / N_l of est_var are meaningful: under the same hypotheses every level with variance gets at least one
+   sample (Coq's x / 0 = 0 would otherwise let a starved level contribute nothing) *)
+Theorem C06_samples_where_variance : forall rmse V C, (0 < rmse)%R -> length V = length C ->
+  Forall (fun v => 0 <= v)%R V -> Forall (fun c => 0 < c)%R C -> in_range rmse (S_of V C) V C ->
+  pos_where_var V (giles_alloc rmse V C).
+Proof. exact samples_where_variance. Qed.
 (* ... and so do ANY sample sizes N_l >= sqrt(V_l/C_l) * T / B (T = sum sqrt(V C) when T > 0) *)
 Theorem C06_budget_general : forall B T, (0 < B)%R -> (0 < T)%R -> forall V C N,
   Forall (fun v => 0 <= v)%R V -> Forall (fun c => 0 < c)%R C -> ge_bound T B V C N ->
@@ -114,6 +120,7 @@ Example C06_bias_plus_variance_before_repair :
 Proof. exact bias_plus_variance_before_repair. Qed.
 
 Print Assumptions C06_budget.
+Print Assumptions C06_samples_where_variance.
 Print Assumptions C06_budget_general.
 Print Assumptions C06_budget_zero_cost_refuted.
 Print Assumptions C06_bias_plus_variance.
